@@ -5,10 +5,11 @@ pub mod c04;
 pub mod c05;
 pub mod c06;
 pub mod c07;
+pub mod c08;
 
 use crate::engine::Env;
 
-pub const ALL: [&str; 7] = ["C01", "C02", "C03", "C04", "C05", "C06", "C07"];
+pub const ALL: [&str; 8] = ["C01", "C02", "C03", "C04", "C05", "C06", "C07", "C08"];
 
 /// run (or, with env.register_only, just register) every sub-check of a property
 pub fn run(id: &str, env: &mut Env) -> bool {
@@ -20,6 +21,7 @@ pub fn run(id: &str, env: &mut Env) -> bool {
         "C05" => c05::run(env),
         "C06" => c06::run(env),
         "C07" => c07::run(env),
+        "C08" => c08::run(env),
         _ => return false,
     }
     true
@@ -35,6 +37,7 @@ pub fn rule(id: &str) -> String {
         "C05" => "Cases (date, N, operation in add_months/sub_months/add_years/sub_years, receiver Date or DateTime with a time of day): dates rich in month ends 28..31 and Feb 29 of AD and BC leap years, the era neighbourhood and the range ends; N from 0,1,2,11,12,13,23,24,25, month+-1, 1200, 4800, the exact distance to the range end and to the era boundary +-k, 2^31-1, 2^31, 2^32-1, log-uniform; plus the complete product (month, day) x N<=50 x 4 operations over a window of years around the era. Oracle: month arithmetic on the astronomical month index with end-of-month clamp (second formulation by single-month stepping for N<=50); in range => exact date, same time of day, same offset; out of range => panic. DateTime receivers with a non-zero offset: only time of day and offset preservation are judged. Non-trivial: day >= 29, clamped, crosses the era, BC start, sub_months borrowing a year, N >= 2^31, target within a month of a range end.",
         "C02" => "Getters weekday()/day_of_year(): complete windows (quick) or all 2^32 days (thorough) against (d+1) mod 7 and d - jan1 + 1; the formatted fields w, ww, q, e..eeeeeeee, D (one format call with a 12-field pattern) on Dec 25..Jan 7 of every year in windows (quick) or of all 11.76M years (thorough), on 400-year cycles around the era and 1970 and at the range ends, against the ISO-8601 week (two formulations), quarter and weekday tables; set_day_of_year for years x N in 0..=367 (windows of years in quick, every year in thorough); plus seeded random days through the full per-field oracle on Date and DateTime. Non-trivial: BC day, day in the first/last 7 days of a year, N in {0,1,59,60,61,365,366,367}, BC or range-end year for the setter.",
         "C07" => "Complete enumeration of all ordered pairs of days inside multi-year windows (a modern window with a leap year, the era boundary, BC leap years), row by row (fixed b, every a), for Date and - with three times of day on both sides - for DateTime; plus seeded random pairs over the whole range (half of them a few months apart with day of month and time of day within +-1 of each other) and random rows. Oracle per pair: antisymmetry of months_since and years_since (all pairs); when the earlier value's day of month is <= 28, the bracket model.add_months(b, n) <= a < model.add_months(b, n+1) on the instants and years == n / 12; along each row monotonicity in a. The model's month arithmetic is used, never the crate's. Non-trivial pair: same year with a day/time borrow, across a leap day, across the era, same date with different time of day. Row cases count their non-trivial pairs by construction.",
+        "C08" => "Model-based histories on Time: a start value (boundary-dense time of day, optional offset) followed by up to 12 operations from add_/sub_ x 6 units x u32 counts, Time +/- Time, Time +/- Duration (0 .. 2^64 s), the *Assign forms, the six setters (in and out of range), the six clear_until_*, set_offset, as_offset, Time::from(DateTime) of any era, parse(format(..)); the reference state is (nanoseconds mod 24 h, offset) and after EVERY step as_nanos() < 24 h, as_nanos(), get_offset(), as_hms(), the six local getters and equality with a freshly built Time are compared with it. Single-operation histories are also enumerated from every (97th in quick) second of the day x four sub-second values. Constructors from_hms/from_seconds/from_nanos over boundary-dense u32/u64 arguments accept exactly in-day values. Non-trivial: a step wrapping past midnight in either direction, amount >= 2^63 ns, operands summing to >= 24 h, subtraction below zero, duration >= 24 h, Time from a BC DateTime, set/clear under an offset.",
         _ => "",
     }
     .to_string()
